@@ -11,7 +11,7 @@
 From Coq Require Import ZArith List Bool.
 From AV Require Import Lib.Bytes Gen.Utils Gen.SctpConst Model.SctpRecv Model.SctpSend
   Proof.SctpRecvP Proof.SctpC01P Proof.SctpSendP Proof.SctpDupP Proof.SctpOrderP Proof.SctpOrderSP
-  Proof.SctpOrderTP Proof.SctpOrderEP Proof.SctpOnceP Proof.SctpOnceEP Proof.SctpOnceFwdP.
+  Proof.SctpOrderTP Proof.SctpOrderEP Proof.SctpOnceP Proof.SctpOnceEP Proof.SctpOnceFwdP Proof.SctpCompleteEP.
 Import ListNotations.
 Local Open Scope Z_scope.
 
@@ -152,9 +152,33 @@ Theorem C01_at_most_once_all : forall base N t0 msgs es,
 Proof. intros base N t0 msgs es Hb HN. exact (at_most_once_all base N Hb HN t0 msgs es). Qed.
 Print Assumptions C01_at_most_once_all.
 
+(* 9. COMPLETE delivery: nothing that has arrived stays behind.  Same setting as theorem 5 (any
+   messages, any initial TSN, any arrival list with every order, loss, duplication and
+   retransmission pattern).  If every chunk of the ordered messages of stream st is among the
+   chunks the receiver ACCEPTED (it arrived at least once while inside the receive window), then
+   the messages delivered on st are exactly ALL ordered messages sent on st - in sending order,
+   each once.  (The pop loop stops only where the next expected message is incomplete, and every
+   chunk that entered the reassembly queue is either still there or part of a delivered message.)
+   With C02_never_wedged - the sender keeps (re)transmitting until everything is acknowledged -
+   this is the receiver's half of "once the network heals, everything sent is delivered". *)
+Theorem C01_complete_delivery : forall base N t0 msgs st es,
+  r32 base -> 0 <= N < 2147483648 -> r32 t0 ->
+  off base t0 + Z.of_nat (total_frags msgs) <= N ->
+  Forall (fun m => o_data m <> []) msgs ->
+  let M := sel st (mkS t0 []) msgs in
+  Forall (data_ev base N) es ->
+  (forall c, In (EvData c) es -> sid c = st -> In c (concat M)) ->
+  swin M [] 0 0 (filter (on_stream st) (accepted_chunks (rinit base) es)) ->
+  (forall c, In c (concat M) -> In c (accepted_chunks (rinit base) es)) ->
+  msgs_on st (rinit base) es = map triple (filter (selected st) msgs).
+Proof. exact ordered_complete_delivery. Qed.
+Print Assumptions C01_complete_delivery.
+
 (* Still PARTIAL: the two-endpoint statement "every message IS eventually delivered once the
-   network heals" is liveness of the retransmission machinery; it is observed by the
-   scenario oracle (and bounded by C02's theorems: no reachable sender state is wedged). *)
+   network heals" composes theorem 9 with the sender's liveness (C02_never_wedged: no reachable
+   sender state is wedged; the ideal peer's SACK is the receiver model's) and with the network
+   actually delivering the retransmissions; that composition over two endpoints and real timers
+   is observed by the scenario oracle, not mechanised. *)
 
 (* non-vacuity: a 3-fragment message near the TSN wrap, delivered from a shuffled,
    duplicated arrival list *)
@@ -179,6 +203,16 @@ Example C01_ordered_example :
   msgs_on 1 (rinit 4294967294) (map EvData (rev cs ++ cs)) = [(1, 53, [1; 2]); (1, 53, repeat 7 1201); (1, 51, [9])] /\
   msgs_on 1 (rinit 4294967294) (map EvData (rev (skipn 3 cs) ++ firstn 2 cs)) = [(1, 53, [1; 2])].
 Proof. vm_compute. repeat split; reflexivity. Qed.
+
+(* non-vacuity of theorem 9 (same messages as above): every chunk arrives - the last ones first, some
+   twice - and all three ordered messages of stream 1 come out; the accepted chunks are all five *)
+Example C01_complete_example :
+  let msgs := [mkOut 1 true 53 [1; 2]; mkOut 2 true 53 [7]; mkOut 1 true 53 (repeat 7 1201); mkOut 1 true 51 [9]] in
+  let cs := concat (send_msgs (mkS 4294967295 []) msgs) in
+  let es := map EvData (rev cs ++ skipn 2 cs) in
+  map tsn (accepted_chunks (rinit 4294967294) es) = [3; 2; 1; 0; 4294967295] /\
+  msgs_on 1 (rinit 4294967294) es = map triple (filter (selected 1) msgs).
+Proof. vm_compute. split; reflexivity. Qed.
 
 (* non-vacuity of theorem 7: an unordered two-fragment message and an unordered one-fragment
    message, each arriving twice and out of order, are delivered once each *)
